@@ -106,7 +106,15 @@ def gen_history(r: random.Random) -> list[str]:
 
 def gen_cases(tier: str, seed: int):
     r = random.Random(f"{seed}:C18")
-    n = 14 if tier == "quick" else 150
+    n = 12 if tier == "quick" else 150
+    # two fixed shapes on every run: the process ends (in every exit mode / at every kill point) inside an open transaction
+    # that changed rows and metadata; once with the connection used as a context manager
+    open_txn = ["CREATE TABLE T1 (ID INT, S VARCHAR(10)) COMMENT = 'first'", "INSERT INTO T1 VALUES (1, 'a'), (2, 'b')",
+                "CREATE TABLE T2 (ID INT, NAME VARCHAR(20)) COMMENT = 'all orders'", "INSERT INTO T2 VALUES (1, 'x')", "BEGIN",
+                "UPDATE T1 SET S = 'moved' WHERE ID = 1", "INSERT INTO T1 (ID, S) VALUES (500, 'tx')", "COMMENT ON TABLE T2 IS 'in txn'",
+                "DROP TABLE T2", "CREATE TABLE T2 (ID INT, NAME VARCHAR(5))"]
+    for wc in (True, False):
+        yield {"kind": "history", "history": open_txn, "stride": 3 if tier == "quick" else 1, "offset": int(wc), "with_conn": wc}
     for i in range(n):
         yield {"kind": "history", "history": gen_history(r), "stride": 3 if tier == "quick" else 1, "offset": i % 3, "with_conn": i % 2 == 1}
     for i in range(4 if tier == "quick" else 24):
